@@ -36,6 +36,11 @@ func coldstart(e *ev.Env) {
 	e.Cases("coldstart", e.N(480, 24000), func(c *ev.Case) {
 		r := c.R
 		cfg := genCfg(r)
+		if cfg.NoConfig {
+			// a memory-backed app would start the clock for the rest of this process: keep the
+			// family what it is for and run this draw as an explicit default configuration
+			cfg = tcfg{Max: 5, E: 60, NKeys: cfg.NKeys, MaxOmitted: true}
+		}
 		cfg.VStore = true
 		st := genSteps(r, cfg)
 		hr := runHist(e, c, cfg, st)
